@@ -355,7 +355,10 @@ func runCase(cs Case, io *core.ChildIO) CaseResult {
 		case <-time.After(30 * time.Second):
 			res.Inconclusive = "stop did not return within 30s"
 		}
-		time.Sleep(20 * time.Millisecond)
+		// the plugins call Stop first and cancel the context afterwards (gelf never
+		// does): whatever Stop left behind (a partial batch, the heartbeat) must
+		// stay harmless for longer than the flush timeout
+		time.Sleep(time.Duration(cs.FlushMs)*time.Millisecond + 250*time.Millisecond)
 	}
 	tickEnd := atomic.LoadInt64(&tick)
 	cancel()
